@@ -150,6 +150,13 @@ def fixed_instances():
             regs = [{"start": base, "stop": base + 3, "width": 24, "r": 1, "w": 1},
                     {"start": base + 3, "stop": base + 6, "width": 20, "r": 1, "w": 1}]
             out.append(_adapter_instance("csr.Multiplexer", ad, {"dw": 8, "aw": aw, "al": 0, "regs": regs, "overlaps": ov}))
+    # very wide address spaces: registers that alias in every small shadow, far apart; the work of an elaboration
+    # must depend on the number of registers, not on the size of the address space
+    for aw, far in ((40, 1 << 39), (32, (1 << 31) + 4), (48, (1 << 47) - 8)):
+        for ov in (0, None):
+            regs = [{"start": 0, "stop": 2, "width": 16, "r": 1, "w": 1},
+                    {"start": far, "stop": far + 2, "width": 16, "r": 1, "w": 1}]
+            out.append(_adapter_instance("csr.Multiplexer", ad, {"dw": 8, "aw": aw, "al": 0, "regs": regs, "overlaps": ov}))
     # access-mode asymmetry: more write-only than readable registers sharing a chunk
     for ov in (None, 0, 2):
         regs = [{"start": 0, "stop": 1, "width": 8, "r": 1, "w": 0}] + \
